@@ -17,6 +17,13 @@ fn main() {
     if std::env::var("RV_LOUD").is_err() {
         util::quiet_panics();
     }
+    if argv.get(1).map(|s| s.as_str()) == Some("record") {
+        let out = args.str("out", "-");
+        if out != "-" {
+            let _ = std::fs::remove_file(format!("{out}.hang"));
+            util::start_watchdog(out, args.num("hang", 120));
+        }
+    }
     match (argv.get(1).map(|s| s.as_str()), argv.get(2).map(|s| s.as_str())) {
         (Some("record"), Some("bdd")) => bdd_rec::record(&args),
         (Some("record"), Some("sdd")) => sdd_rec::record(&args),
